@@ -95,3 +95,37 @@ func RunC05(rep *report.Report, tier string) {
 func RunC06(rep *report.Report, tier string) {
 	RunC06A(rep, tier, ribhist.Budget(tier, 100*time.Second, 20*time.Minute))
 }
+
+// RunC01Server is the server tier of C01: one primary session drives the real doModify (translation of the RIB's
+// verdicts into results included) from a state with a chain installed and a REPLACE held; the installed state must
+// equal the fold of the RIB_PROGRAMMED results after every step.
+func RunC01Server(rep *report.Report, tier string) {
+	entries := []string{"ADD nh1", "DELETE nh1", "ADD v4->1", "ADD nhg1{1}", "DELETE nhg1", "REPLACE v4->2", "DELETE v4", "ADD nhg2{2}", "ADD nh2", "ADD v4@V->1@D", "ADD v6@V->1@D"}
+	ls := MakeLetters(1, []ID{{0, 1}}, []stamp{stOwn}, nil, entries, [][]string{{"ADD nhg2{2}", "ADD nh2"}, {"ADD v6@V->1@D", "ADD nh1", "ADD nhg1{1}"}})
+	idx := func(name string) int {
+		for i, l := range ls {
+			if l.Name == name {
+				return i
+			}
+		}
+		panic("sesshist: no letter " + name)
+	}
+	d := 4
+	if tier == "thorough" {
+		d = 6
+	}
+	for _, fib := range []bool{false, true} {
+		for label, init := range map[string][]string{
+			"primary-established":              {"open s0", "announce s0 (0,1)"},
+			"chain-installed-and-replace-held": {"open s0", "announce s0 (0,1)", "operate s0 [ADD nh1] stamp=own", "operate s0 [ADD nhg1{1}] stamp=own", "operate s0 [ADD v4->1] stamp=own", "operate s0 [REPLACE v4->2] stamp=own"},
+		} {
+			var root []int
+			for _, n := range init {
+				root = append(root, idx(n))
+			}
+			o := &Options{Letters: ls, Sessions: 1, FIBAck: fib, Checks: Checks{Answers: true}}
+			res := mc.BFS(mc.Config{Letters: Names(ls), New: New(o), MaxDepth: len(root) + d, Root: root, Deadline: ribhist.Budget(tier, 40*time.Second, 10*time.Minute)})
+			ribhist.Merge(rep, fmt.Sprintf("server/one-primary/from-%s/fib-ack-%v", label, fib), res, len(root)+d)
+		}
+	}
+}
